@@ -320,6 +320,26 @@ Theorem c20_vmt_missing_delimiter_refuted :
      <> [KvBase.TStr [97%N]; KvBase.TNL; KvBase.TStr [36; 98]%N; KvBase.TStr [49; 44; 50]%N; KvBase.TNL].
 Proof. exact VQP.missing_delimiter_refuted. Qed.
 
+(** the whole file of a material that has parameters only (no sub-blocks, no proxies; the frame `<shader>\n\t{\n` ... `\t}\n` is an
+    obligation on Material.export, the file text is compared with the exporter on every run): for a shader name that is a bare
+    string and parameters as above, the tokenizer model reads the file without error as exactly shader, `{`, the (name, value)
+    pairs in order, `}` (partial as above: quoted strings without backslash; what Material.parse builds from the tokens is searched) *)
+Theorem c20_vmt_file_reads_back_partial : forall E cfg shader ps, VQ.nq_okb cfg = true -> VQP.shader_ok shader = true ->
+  VQP.params_ok cfg ps = true -> KvLex.lex_all E (VQ.vmt_file cfg shader ps) = (VQ.vmt_tokens shader ps, None).
+Proof. exact VQP.vmt_file_reads_back. Qed.
+
+(** hence the written file determines the material: two different parameter-only materials never produce the same file *)
+Theorem c20_vmt_file_determines_material : forall cfg s1 p1 s2 p2, VQ.nq_okb cfg = true ->
+  VQP.shader_ok s1 = true -> VQP.params_ok cfg p1 = true -> VQP.shader_ok s2 = true -> VQP.params_ok cfg p2 = true ->
+  VQ.vmt_file cfg s1 p1 = VQ.vmt_file cfg s2 p2 -> s1 = s2 /\ p1 = p2.
+Proof. exact VQP.vmt_file_determines_material. Qed.
+
+(** refuted: a shader name with a space (written as it is) is not representable *)
+Theorem c20_vmt_shader_with_space_refuted :
+  VQP.shader_ok [97; 32; 98]%N = false
+  /\ fst (KvLex.lex_all TFP.ex_escfg (VQ.vmt_file VQP.ref_nq [97; 32; 98]%N [])) <> VQ.vmt_tokens [97; 32; 98]%N [].
+Proof. exact VQP.shader_with_space_refuted. Qed.
+
 (** * Binary choreo scenes (BVCD), at the level of raw field values (float32 as bit pattern, quantised values as the
     byte written, strings as pool indexes).  Fmt/ChoreoBin.v describes each class by a layout; the check discharges,
     per class, that the width / call / loop paths of the layout are exactly the paths export_binary can emit and exactly
